@@ -98,6 +98,21 @@ CHECKS.update({
         design_ref='DESIGN.md §3.3, §4 C03', note=META_NOTE + '; the SQL renderer vt/adapters/_sql.py'),
 })
 
+
+CHECKS.update({
+    'C12': dict(
+        technique='LoadIO.tla (Accept / RejectInput / Build, properties RejectedInputIsStutter, BuildIsPure) model-checked; histories of '
+                  'valid texts, every single-edit token mutant, token soups and character noise fed to a real loader next to a twin '
+                  'loader; recorded outcomes, statement counts and twin equality validated by TLC (LoadIOTrace.tla)',
+        text='The specification fixes the only outcomes a loader may have and that rejection is a stutter step; it deliberately does '
+             'not say which texts are accepted. Every recorded call must be one of those actions, so an unrelated built-in '
+             'exception, a half-applied text (statement count or twin build differs) or a call exceeding its time budget has no '
+             'matching action and is reported.',
+        design_ref='DESIGN.md §3.3, §4 C12',
+        note='trusted: TLC, the recording adapter vt/adapters/loadio.py (exception class, len(loader.statements), serialisation '
+             'of loader and twin builds), the mutation operators of vt/sqltok.py'),
+})
+
 NOT_YET = {}
 
 
